@@ -109,6 +109,9 @@ func printResult(r *sym.HarnessResult) {
 	fmt.Printf("   path ends: %v\n", r.PathEnds)
 	for _, v := range r.Violations {
 		b, _ := json.Marshal(v.Model)
+		if len(b) > 400 && os.Getenv("GOSYM_FULLMODEL") == "" {
+			b = append(b[:400], []byte("...")...)
+		}
 		fmt.Printf("   VIOLATION %s %q at %s choices=%v model=%s\n", v.Kind, v.Label, v.Site, v.Choices, b)
 	}
 	for _, v := range r.BudgetPaths {
